@@ -5,7 +5,7 @@ import itertools
 NAMES = ["ophelia", "my_hero", "a_rig", "x.y", "ab-c"]
 
 
-def value_sets(ref, typ, n_closed=2, n_digit=2, n_names=2, search=True, aliases=True):
+def value_sets(ref, typ, n_closed=2, n_digit=2, n_names=2, search=True, aliases=True, empty=False):
     """Per key of typ: list of values (concrete members, then '*', '>')."""
     pool_l = ref.literals()
     pool_d = ref.digit_instances()
@@ -13,7 +13,7 @@ def value_sets(ref, typ, n_closed=2, n_digit=2, n_names=2, search=True, aliases=
     out = []
     for i, (k, p) in enumerate(tpl):
         if p is None:
-            vals = NAMES[:n_names]
+            vals = NAMES[:n_names] + ([""] if empty and ref._rx[typ][i].fullmatch("") else [])
         else:
             lit = ref.accepted(typ, i, pool_l)
             dig = ref.accepted(typ, i, pool_d)
